@@ -162,7 +162,7 @@ def generate(rng, tier, run):
                     'real_parse': rng.random() < 0.05},
         'nested': nested,
         'riders': rng.random() < 0.5,
-        'aggbal': rng.choice([None, None, 0, 1, 2, 3]),
+        'aggbal': rng.choice([None, None, 0, 1, 2, 3, 4, 5, 6]),
         'aggfilter': rng.choice(FILTERS),
         'clients': [],
     }
@@ -231,6 +231,10 @@ AGGBAL = [
     'SELECT account, sum(balance) AS s0, sum(balance) AS s1, last(balance) AS l0',
     'SELECT account, units(sum(balance)) AS u0, first(balance) AS f0, last(balance) AS l0',
     'SELECT account, last(balance) AS l0, sum(balance) AS s0, first(balance) AS f0, sum(balance) AS s1',
+    # balance consulted by one aggregate only: every selected posting must still enter the running balance
+    'SELECT account, first(balance) AS f0, count(position) AS n0',
+    'SELECT account, count(position) AS n0, first(balance) AS f0, first(balance) AS f1',
+    'SELECT account, last(balance) AS l0',
 ]
 
 
